@@ -75,6 +75,35 @@ def doParse (verbose : Bool) (start cap hex : String) : String :=
     | (.err e, st) => s!"err {e} {st.dir} {st.vers.length}"
     | (.oof, _) => "oof"
 
+/-- memo table after the parse (diagnostic / correspondence of the memo traffic): entries `name:pos:dir:len|F`,
+    sorted, plus the length of the FIFO key queue (= number of insertions when the capacity is unbounded) -/
+def doParseM (start cap hex : String) : String :=
+  match startOf start with
+  | none => "bad-start"
+  | some f =>
+    let inp := unhex hex
+    let st0 : PState := {}
+    let g : Grammar := { grammar with memoCap := capOf cap }
+    let e : PExpr := if start == "pp" then .allConsuming (.call f) else .call f
+    let (_, st) := eval g inp (fuelFor inp) e 0 {} st0.init
+    let ents := st.memo.tbl.toList.map (fun (kv : MKey × MVal) =>
+      let v := match kv.2 with | some (_, l) => toString l | none => "F"
+      s!"{prodNames.getD kv.1.1 "?"}:{kv.1.2.1}:{if kv.1.2.2 then 1 else 0}:{v}")
+    let sorted := ents.toArray.qsort (· < ·)
+    s!"{st.memo.keys.length} " ++ String.intercalate "," sorted.toList
+
+/-- insertion order of the memo keys (capacity unbounded keeps the whole queue) -/
+def doParseK (start cap hex : String) : String :=
+  match startOf start with
+  | none => "bad-start"
+  | some f =>
+    let inp := unhex hex
+    let st0 : PState := {}
+    let g : Grammar := { grammar with memoCap := capOf cap }
+    let e : PExpr := if start == "pp" then .allConsuming (.call f) else .call f
+    let (_, st) := eval g inp (fuelFor inp) e 0 {} st0.init
+    String.intercalate "," (st.memo.keys.map (fun (k : MKey) => s!"{prodNames.getD k.1 "?"}:{k.2.1}:{if k.2.2 then 1 else 0}"))
+
 /-! ### C16: iterator models on a tree sent by the harness -/
 
 /-- tokens: `N<kind>` opens a node, `)` closes it, `L<off>,<len>,<line>` is a leaf -/
@@ -250,6 +279,8 @@ def step (line : String) : String :=
   | ["parse", start, cap] => doParse false start cap ""
   | ["parsev", start, cap, hex] => doParse true start cap hex
   | ["parsev", start, cap] => doParse true start cap ""
+  | ["parsem", start, cap, hex] => doParseM start cap hex
+  | ["parsek", start, cap, hex] => doParseK start cap hex
   | "c16" :: ws :: toks => doC16 ws toks
   | "pp" :: rest => doPp rest
   | "ppfile" :: rest => doPpFile rest
